@@ -1,6 +1,8 @@
 package main
 
 import (
+	"github.com/polydawn/refmt"
+	"reflect"
 	"fmt"
 	"io"
 	"strconv"
@@ -143,6 +145,23 @@ func opRFault(p []string) string {
 	if class0 == "ok" && k < itemLen && !(p[0] == "json" && k == itemLen-1 && jsonEndsWithLookahead(data, itemLen)) {
 		if class != "inj" {
 			oracle = "viol:read-fault-not-reported:" + class
+		}
+		// the same through the library's own pump into an unmarshaller (Unmarshaller.Unmarshal): it must not return nil
+		if oracle == "ok" {
+			sr2 := newSched(data, "-", "0")
+			sr2.faultAt = k
+			sr2.faultStop = p[3] == "1"
+			var do refmt.DecodeOptions = cbor.DecodeOptions{}
+			if p[0] == "json" {
+				do = json.DecodeOptions{}
+			}
+			var v interface{}
+			e, pn := safely(func() error { return refmt.NewUnmarshaller(do, sr2).Unmarshal(&v) })
+			if pn {
+				oracle = "viol:panic-in-unmarshal-on-read-fault"
+			} else if e == nil {
+				oracle = "viol:read-fault-swallowed-by-unmarshal:" + dumpValue(reflect.ValueOf(&v).Elem())
+			}
 		}
 	}
 	return fmt.Sprintf("I=%s/%s O=%s", showToks(toks), class, oracle)
